@@ -21,6 +21,7 @@ NEEDS_CICADA = True
 ALLOWED_AXIOMS = []
 PINNED = ["C15_args", "C15_args_newline_refuted", "C15_func_status", "C15_func_status_seq", "C15_sete_flat", "C15_sete", "C15_sete_stops", "C15_sete_calls_instances", "C15_flag_preserved", "C15_sete_calls", "C15_sete_combined", "C15_sete_rest_of_body", "C15_source_with_redirection",
           "C15_sete_calls_trace", "C15_sete_calls_script", "C15_first_failure", "C15_indented_blank_text_parsed", "C15_tab_ok_indented_blank", "C15_indented_blank_nonvacuous", "C15_sete_andor_script", "C15_alines_is_refl", "C15_refl3_is_refl", "C15_sete_andor_trace", "C15_sete_andor_trace_nonvacuous", "C15_refl_is_upto_fail", "C15_indented_text_parsed", "C15_tab_ok_indented", "C15_sete_calls_text_indented", "C15_sete_calls_text_indented_nonvacuous", "C15_sete_source_trace", "C15_sete_source_trace_script", "C15_sete_source_trace_nonvacuous", "C15_flat_text_parsed", "C15_sete_calls_text", "C15_sete_calls_text_nonvacuous", "C15_sete_calls_flag_state", "C15_sete_calls_flag_state_script", "C15_flag_never_off", "C15_sete_calls_flag_state_nonvacuous", "C15_sete_calls_script_at", "C15_sete_calls_at_nonvacuous", "C15_sete_calls_stops", "C15_sete_calls_nonvacuous",
+          "C15_parse_never_fuel", "C15_flat_text_parsed_total", "C15_indented_text_parsed_total", "C15_indented_blank_text_parsed_total", "C15_sete_calls_text_total", "C15_sete_calls_text_indented_total",
           "C15_full", "C15_refuted"]
 TRUSTED = [
     "Coq 8.16.1 kernel (coqc; coqchk in thorough); vm_compute in Example witnesses and in the regression Examples",
